@@ -401,7 +401,10 @@ func probeValues(g *Gen, t reflect.Type, name string) []reflect.Value {
 			v(-59 * day), v(336 * day), v(355*day + time.Hour), v(356 * day), v(385*day + 61*time.Second), v(3650 * day)}
 	case t == tSource:
 		return []reflect.Value{v(ap.Source{MediaType: "text/markdown", Content: ap.NaturalLanguageValues{{Ref: ap.NilLangRef, Value: ap.Content("src")}}}), v(ap.Source{MediaType: "text/markdown"}),
-			v(ap.Source{Content: ap.NaturalLanguageValues{{Ref: ap.NilLangRef, Value: ap.Content("src")}}})}
+			v(ap.Source{Content: ap.NaturalLanguageValues{{Ref: ap.NilLangRef, Value: ap.Content("src")}}}),
+			// a media type with a quoted parameter value: it ends in a quote of its own
+			v(ap.Source{MediaType: `text/x-markdown; charset="utf-8"`, Content: ap.NaturalLanguageValues{{Ref: ap.NilLangRef, Value: ap.Content("src")}}}),
+			v(ap.Source{MediaType: `"quoted"`})}
 	case t == tEndp:
 		return []reflect.Value{v(&ap.Endpoints{SharedInbox: id, UploadMedia: ap.IRI("https://example.com/up")}),
 			v(&ap.Endpoints{UploadMedia: ap.IRI("https://example.com/e/1"), OauthAuthorizationEndpoint: ap.IRI("https://example.com/e/2"), OauthTokenEndpoint: ap.IRI("https://example.com/e/3"),
@@ -409,7 +412,7 @@ func probeValues(g *Gen, t reflect.Type, name string) []reflect.Value {
 			v(&ap.Endpoints{SignClientKey: ap.IRI("https://example.com/e/5"), SharedInbox: ap.IRI("https://example.com/e/6")})}
 	case t == tPubKey:
 		return []reflect.Value{v(ap.PublicKey{ID: "https://example.com/k", Owner: id, PublicKeyPem: "-----BEGIN PUBLIC KEY-----\nMIIB\n-----END PUBLIC KEY-----"}),
-			v(ap.PublicKey{ID: "https://example.com/k"}), v(ap.PublicKey{PublicKeyPem: "PEM"})}
+			v(ap.PublicKey{ID: "https://example.com/k"}), v(ap.PublicKey{PublicKeyPem: "PEM"}), v(ap.PublicKey{Owner: id}), v(ap.PublicKey{ID: "https://example.com/k", Owner: id})}
 	case t.Kind() == reflect.String:
 		s := reflect.New(t).Elem()
 		if t.Name() == "IRI" {
@@ -419,6 +422,12 @@ func probeValues(g *Gen, t reflect.Type, name string) []reflect.Value {
 			return []reflect.Value{s, s2}
 		}
 		s.SetString("en")
+		if t.Name() == "MimeType" {
+			s.SetString("text/html")
+			s2 := reflect.New(t).Elem()
+			s2.SetString(`text/html; charset="utf-8"`)
+			return []reflect.Value{s, s2}
+		}
 		return []reflect.Value{s}
 	case t.Kind() == reflect.Uint:
 		a, b := reflect.New(t).Elem(), reflect.New(t).Elem()
